@@ -1,2 +1,4 @@
 pub mod c02;
 pub mod c09;
+pub mod c13;
+pub mod smoke;
